@@ -15,6 +15,9 @@ FOCI = {
     "A": "two cooperating edits at different sites (different functions, ideally different files) which each look harmless and are harmless alone, but together break the property",
     "B": "a change whose effect depends on timing or order: it only shows when a timer expires, a PDU arrives, a cancel/put request is issued or get_next_packet is (not) called at one particular point of the transaction",
     "C": "a data-structure / aliasing / caching problem (shared mutable default, object kept by reference and modified later, value cached across transactions or across handler instances, stale flag) or a change in one of the less obvious modules (mib.py, handler/common.py, handler/defs.py, filestore.py, crc.py, user.py, request.py)",
+    "F": "a change that only affects a PDU that is re-sent, duplicated, or arrives out of order or late (the first copy / the in-order case behaves exactly as before)",
+    "G": "a change that only affects the less travelled transfer shapes: metadata-only requests, empty files, files of exactly one segment or an exact multiple of the segment length, closure requested in unacknowledged mode, a directory as destination",
+    "H": "a change on an exception / refusal path: what is left behind (state, step, queued PDUs, counters, timers, files) after a protocol exception was raised, a request was refused, or a fault was declared, so that the *next* call or the next transaction misbehaves",
     "D": "a boundary-value problem that needs an unusual but legal configuration or input (entity-id or sequence-number width, CRC flag, checksum type, file size relative to segment length or packet length, limit of 1, zero-length or maximum-length field, large-file flag)",
 }
 for pid in sys.argv[1:]:
